@@ -666,3 +666,29 @@ package proxy
 //@   requires m != nil && m.latency > 0 && m.dst != nil
 //@ func (*ReverseProxy).copyResponse
 //@   requires rp != nil && rp.FlushInterval >= 0
+
+//@ unit proxy_setup frames=on props=C11,C09,C08,C16 nilchecks=on filter=`proxy\.setup$`
+//@ // Each run of the proxy setup builds its upstreams itself, registers one handler for them, and registers exactly one
+//@ // shutdown callback per upstream (its health-check worker is stopped when the instance shuts down) - and no other
+//@ // life-cycle callback: nothing of a running site is stopped because some later reload was rejected.
+//@ use @verif/specs/stdlib.spec:casket_api
+//@ ghost built int
+//@ ghost registered int
+//@ ghost shutdownRegs int
+//@ func NewStaticUpstreams
+//@   modifies ghost:built
+//@   ensures built == old(built) + 1
+//@   ensures result1 == nil ==> forall(k, 0, len(result0), result0[k] != nil)
+//@ extern (github.com/tmpim/casket/caskethttp/httpserver.SiteConfig).Host
+//@ extern (*github.com/tmpim/casket/caskethttp/httpserver.SiteConfig).AddMiddleware
+//@   modifies ghost:registered
+//@   ensures registered == old(registered) + 1
+//@ extern (*github.com/tmpim/casket.Controller).OnShutdown
+//@   modifies ghost:shutdownRegs
+//@   ensures shutdownRegs == old(shutdownRegs) + 1
+//@ func setup
+//@   requires c != nil && built == 0 && registered == 0 && shutdownRegs == 0
+//@   modifies ghost:built, ghost:registered, ghost:shutdownRegs
+//@   at call (*github.com/tmpim/casket/caskethttp/httpserver.SiteConfig).AddMiddleware before [registered_after_this_runs_own_parse] built == 1
+//@   ensures [one_handler_and_one_shutdown_callback_per_upstream] built == 1 && (result == nil ==> (registered == 1 && shutdownRegs == len(upstreams))) && (result != nil ==> (registered == 0 && shutdownRegs == 0))
+//@   loop 1 invariant 0 <= #i && #i <= len(upstreams) && shutdownRegs == #i && registered == 1 && built == 1
